@@ -32,9 +32,9 @@ ASSUMPTIONS = [
     "list sources cannot carry a fault; the baseline then uses the one-shot sync iterator flavour",
 ]
 
-SRC_FL = ["list", "seq", "iter", "agen", "aclass", "aplain", "tuple", "tuplesub"]
-FN_FL = ["def", "async", "partial", "obj", "objaw"]
-ASYNC_SRC = {"agen", "aclass", "aplain"}
+SRC_FL = ["list", "seq", "iter", "agen", "aclass", "aplain", "tuple", "tuplesub", "aeager"]
+FN_FL = ["def", "async", "partial", "obj", "objaw", "falsyobj"]
+ASYNC_SRC = {"agen", "aclass", "aplain", "aeager"}
 ALL = ITER_TOOLS + AGG_TOOLS
 
 
